@@ -50,7 +50,7 @@ type c20query struct {
 	// query, in the same order); a RAISE_WHEN(a = raiseA, 'boom') inserted before operation raiseAt
 	await    bool
 	nested   bool // the table is given as an array of arrays
-	raisePos int // 0: none; k: before operation k-1 (len(ops)+1: after the last one)
+	raisePos int  // 0: none; k: before operation k-1 (len(ops)+1: after the last one)
 	raiseA   float64
 }
 
